@@ -33,6 +33,9 @@ pub struct Faults {
     pub stale_delivery: f64,
     pub adversary: f64,
     pub chain_down: f64,
+    /// a lagging node learns of the chain's progress in the middle of a cycle
+    #[serde(default)]
+    pub mid_cycle: f64,
     /// share of signature deliveries that travel through the message queue (DMQ) path
     #[serde(default)]
     pub dmq: f64,
@@ -88,6 +91,9 @@ pub enum Damage {
     /// legal re-encoding: the signature claims only a subset of the indexes it won (the index
     /// list embedded in the signature bytes is rewritten, the signature stays valid)
     SubsetIndexes(u64),
+    /// legal-looking re-encoding: some of the won indexes are listed twice in the index list
+    /// embedded in the signature bytes (every listed index is a real win: the signature verifies)
+    RepeatIndexes(u64),
 }
 
 #[derive(Serialize, Deserialize, Clone, Debug, PartialEq)]
@@ -135,6 +141,11 @@ pub enum Event {
     SignerRestart { party: usize },
     /// the signer's view of the chain catches up
     SignerSyncView { party: usize },
+    /// the chain change the aggregator has not seen yet will reach it *inside* one of its next
+    /// cycles: after `reads` more reads of its cardano node
+    MidCycleSync { reads: u32 },
+    /// same for a signer node
+    SignerMidCycleSync { party: usize, reads: u32 },
     /// marker: faults have stopped and the quiescence script has run; the oracle evaluates the
     /// bounded-liveness verdict here
     CheckLiveness,
@@ -197,6 +208,8 @@ impl Event {
             }
             Event::SignerRestart { .. } => "signer-restart",
             Event::SignerSyncView { .. } => "signer-sync-view",
+            Event::MidCycleSync { .. } => "mid-cycle-sync",
+            Event::SignerMidCycleSync { .. } => "signer-mid-cycle-sync",
         }
     }
 }
@@ -365,7 +378,7 @@ impl World {
         for (i, p) in parties.iter().enumerate() {
             w_stakes.insert(p.party_id.clone(), stake_for(&sc, i, epoch + 1));
         }
-        let view = Arc::new(Mutex::new(ChainView { epoch, immutable: 1, block: 100, stakes: w_stakes, down: false }));
+        let view = Arc::new(Mutex::new(ChainView { epoch, immutable: 1, block: 100, stakes: w_stakes, down: false, pending: None }));
         let entity_types = sc
             .entity_types
             .iter()
@@ -512,6 +525,7 @@ impl World {
         v.immutable = self.immutable;
         v.block = self.block;
         v.stakes = stakes;
+        v.pending = None;
     }
 
     pub fn signer_view_is_synced(&self, party: usize) -> bool {
@@ -542,6 +556,21 @@ impl World {
         v.immutable = self.immutable;
         v.block = self.block;
         v.stakes = stakes;
+        v.pending = None;
+    }
+
+    /// Arm a mid-cycle change: after `reads` more reads of its cardano node, `view` shows the
+    /// chain as it is now.
+    fn arm_mid_cycle_sync(&self, view: &crate::chain::SharedView, reads: u32) {
+        let stakes = self.stakes_for_recording_epoch(self.epoch + 1);
+        let mut v = view.lock().unwrap();
+        let mut next = v.clone();
+        next.epoch = self.epoch;
+        next.immutable = self.immutable;
+        next.block = self.block;
+        next.stakes = stakes;
+        next.pending = None;
+        v.pending = Some((reads, Box::new(next)));
     }
 
     /// A party signs an open message once; it signs again only if its message was lost.
@@ -970,6 +999,22 @@ impl World {
                     new_calls.iter().map(|(k, s, f)| format!("{k}:{}{}", s.map(|s| s.to_string()).unwrap_or("-".into()), if f.is_empty() { String::new() } else { format!("!{f}") })).collect::<Vec<_>>()
                 ))
             }
+            Event::MidCycleSync { reads } => {
+                if self.view_is_synced() {
+                    return skip("already in sync");
+                }
+                self.arm_mid_cycle_sync(&self.agg_view.clone(), *reads);
+                self.hit("fault_chain_moves_inside_aggregator_cycle");
+                ok(format!("the aggregator will see epoch {} immutable {} after {reads} more reads", self.epoch, self.immutable))
+            }
+            Event::SignerMidCycleSync { party, reads } => {
+                if *party >= self.signers.len() || self.signer_view_is_synced(*party) {
+                    return skip("already in sync");
+                }
+                self.arm_mid_cycle_sync(&self.signers[*party].view.clone(), *reads);
+                self.hit("fault_chain_moves_inside_signer_cycle");
+                ok(format!("signer {party} will see epoch {} immutable {} after {reads} more reads", self.epoch, self.immutable))
+            }
             Event::SignerRestart { party } => {
                 if *party >= self.signers.len() {
                     return skip("no such signer node");
@@ -1170,6 +1215,30 @@ fn damage_body(body: &str, d: &Damage) -> String {
             let Ok(new_hex) = ProtocolSingleSignature::new(inner).to_json_hex() else { return body.to_string() };
             v["signature"] = serde_json::Value::String(new_hex);
             v["indexes"] = serde_json::json!(kept);
+            v.to_string()
+        }
+        Damage::RepeatIndexes(seed) => {
+            use mithril_common::crypto_helper::ProtocolSingleSignature;
+            let Ok(mut v) = serde_json::from_str::<serde_json::Value>(body) else { return body.to_string() };
+            let Some(hex) = v.get("signature").and_then(|s| s.as_str()).map(|s| s.to_string()) else { return body.to_string() };
+            let Ok(sig): Result<ProtocolSingleSignature, _> = hex.try_into() else { return body.to_string() };
+            let mut inner = sig.into_inner();
+            let all = inner.get_concatenation_signature_indices();
+            let mut r = sim_core::Rng::new(*seed);
+            let mut listed: Vec<u64> = vec![];
+            for i in &all {
+                listed.push(*i);
+                if r.chance(0.6) {
+                    listed.push(*i);
+                }
+            }
+            if listed.len() == all.len() && !all.is_empty() {
+                listed.insert(0, all[0]);
+            }
+            inner.set_concatenation_signature_indices(&listed);
+            let Ok(new_hex) = ProtocolSingleSignature::new(inner).to_json_hex() else { return body.to_string() };
+            v["signature"] = serde_json::Value::String(new_hex);
+            v["indexes"] = serde_json::json!(listed);
             v.to_string()
         }
         Damage::DropIndex => {
